@@ -407,10 +407,29 @@ Definition op_xor (a b : shape) : res op3 :=
 (* ---------- __eq__ ---------- *)
 Definition simple_eq (a b : jordan) : res bool :=
   if negb (Qeq_bool (jordan_area a) (jordan_area b)) then Ok false else jordan_eq a b.
+(* ConnectedShape.__eq__ (repaired): for every sub-shape of self, find and remove an == one of other *)
+Fixpoint find_simple (s : jordan) (k : nat) (l : list jordan) : res (option nat) :=
+  match l with
+  | [] => Ok None
+  | o :: t => do e <- simple_eq o s; if e then Ok (Some k) else find_simple s (S k) t
+  end.
+Fixpoint match_simples (ss os : list jordan) : res bool :=
+  match ss with
+  | [] => Ok true
+  | s :: t =>
+      do r <- find_simple s O os;
+      match r with
+      | None => Ok false
+      | Some k => match_simples t (remove_nth k os)
+      end
+  end.
 Definition comp_eq (a b : comp) : res bool :=
   match a, b with
   | CS ja, CS jb => simple_eq ja jb
-  | CC _, CC _ => Ok (Qle_bool (Qabs' (comp_area a - comp_area b)) tol6)
+  | CC ja, CC jb =>
+      if negb (Qle_bool (Qabs' (comp_area a - comp_area b)) tol6) then Ok false
+      else if negb (Nat.eqb (length ja) (length jb)) then Ok false
+      else match_simples ja jb
   | _, _ => Ok false
   end.
 (* DisjointShape.__eq__: greedy matching *)
